@@ -19,6 +19,19 @@ use vmc::{Chooser, Config, Outcome, Violation};
 
 /// Error text → class word for fingerprints: digits folded, generated key names folded.
 fn err_class(e: &str) -> String {
+    // accessor-consistency messages of Rec::from_variant carry keys and values: class words instead
+    for (pat, class) in [
+        ("although the record has no such key", "keyed-get-finds-absent-key"),
+        ("for that key", "keyed-get-differs-from-iter"),
+        ("although there is no such column", "select-finds-absent-column"),
+        ("but the sample row has", "select-or-series-differs-from-rows"),
+        ("but iter yields", "accessor-differs-from-iter"),
+        ("returns the series named", "select-returns-another-series"),
+    ] {
+        if e.contains(pat) {
+            return class.to_string();
+        }
+    }
     // header errors name the offending ID: fold it
     let e: String = e.split(": ").filter(|seg| !seg.starts_with("ID=")).collect::<Vec<_>>().join(": ");
     let e = e.as_str();
@@ -754,6 +767,36 @@ fn main() {
             },
         );
         ctx.add_distinct(op_cases.len() as u64, op_cases.len() as u64);
+        // (8) keyed lookups: keys that are substrings / prefixes / suffixes of earlier keys and values
+        ctx.rule(
+            "keyed lookups: gvcf::keyed documents (every ordered pair and triple of 12 INFO keys - CIEND/END/ENDX/EN, MAF/AF, \
+             NOTE=lowDP/DP/lowDP, XSVLEN/SVLEN, F - and of 9 FORMAT keys - XGQ/GQ, XAD/AD, DPX/DP, TAG=DP, LEN/XLEN -, with and \
+             without GT, full sets in every rotation) x fileformat 4.2-4.5: lazy Info::get(key), Samples::select(key), \
+             Series::get(i), Sample::get(key)/get_index(j) == iter for every key, absent fragments are not found, lazy span == \
+             eager span == rule",
+        );
+        let key_docs = gvcf::keyed::documents();
+        let key_hdrs: Vec<(vcf::Header, (u32, u32))> =
+            FILE_FORMATS.iter().map(|&ff| (gvcf::keyed::keyed_header(ff).build().expect("keyed header builds"), ff)).collect();
+        let n_docs = key_docs.len() as u64;
+        ctx.sweep(
+            "keyed_lookup",
+            n_docs * key_hdrs.len() as u64,
+            |i| format!("fileformat={:?} header=gvcf::keyed::keyed_header(ff) record {} = {}", key_hdrs[(i / n_docs) as usize].1, key_docs[(i % n_docs) as usize].0, key_docs[(i % n_docs) as usize].1.show()),
+            |i| {
+                let (header, ff) = &key_hdrs[(i / n_docs) as usize];
+                let (label, rec) = &key_docs[(i % n_docs) as usize];
+                let dec = || format!("record {label}");
+                let line = io::vcf_write_record(header, &rec.to_record_buf()).map_err(|f| fail_violation("write", &f, dec(), "Ok (the record is valid)"))?;
+                let shape_of = |_: &str| "keyed-lookup";
+                check_line(None, header, *ff, &line, Some((rec, &Expect::Exact)), &shape_of, &dec).map(|_| ()).map_err(|mut v| {
+                    v.fingerprint = format!("family=keyed-lookup column={} {}", label.split('[').next().unwrap_or("?").split('-').next().unwrap_or("?"), v.fingerprint);
+                    v
+                })
+            },
+        );
+        ctx.add_distinct(n_docs * key_hdrs.len() as u64, n_docs * key_hdrs.len() as u64);
+
         // (7) header_reader(): the raw header through every Read / BufRead call style and source
         ctx.rule(
             "header_reader(): 5 headers (minimal, 2 samples, rich, 400-byte line, 40 samples) x followed by 0/1/2 records x 7 \
